@@ -275,7 +275,8 @@ def run(ctx) -> None:
                     if arity == 1:
                         ok = ok and len(a) == 1 and a[0].startswith("$elem(") and a[0].endswith(f".{lst})")
                     else:
-                        ok = ok and len(a) == 2 and a[0].endswith(f".{lst})[0]") and a[1].endswith(f".{lst})[1]")
+                        # (source, destination) by position, or the pair itself unpacked into the constructor (`Cls(*pair)`, starmap)
+                        ok = ok and ((len(a) == 2 and a[0].endswith(f".{lst})[0]") and a[1].endswith(f".{lst})[1]")) or (len(a) == 1 and a[0].startswith("*$elem(") and a[0].endswith(f".{lst})")))
             ctx.check(ok, RE, f"{lst} -> {cls}", f"list {lst} is translated to {[[e.brief() for e in b] for b in em.inner]}; expected one {cls} per entry with the entry's path(s) in order", pf.loc)
         for lst in TABLE:
             ctx.check(order.count(lst) == 1, RE, f"{lst} iterated exactly once", f"{lst} is iterated {order.count(lst)} times: entries are {'lost' if order.count(lst) == 0 else 'reported twice'}", pf.loc)
